@@ -84,12 +84,21 @@ theorem pad_conv_interior (x psf : List Rat) (hp : psf ≠ []) (k : Nat)
 
 /-! ## linspace and normalisation -/
 
-/-- `linspace a b n` has `n` entries, entry `i` is `a + i·(b − a)/(n − 1)` (the overwritten last
-entry included), so it starts at `a`, ends at `b` and is equally spaced -/
-theorem linspace_spec (a b : Rat) (n : Nat) :
+/-- `np.linspace(a, b, 1) = [a]` (the stop is not used; in the model the step `(b − a)/0` is multiplied by 0) -/
+theorem linspace_one (a b : Rat) : linspace a b 1 = [a] := by
+  simp [linspace]
+
+/-- `np.linspace(a, b, 0)` is empty -/
+theorem linspace_zero (a b : Rat) : linspace a b 0 = [] := by
+  simp [linspace]
+
+/-- for `n ≥ 2`: `linspace a b n` has `n` entries, entry `i` is `a + i·(b − a)/(n − 1)` (the overwritten last
+entry included), it starts at `a`, ends at `b` and consecutive entries differ by `(b − a)/(n − 1)` -/
+theorem linspace_spec (a b : Rat) (n : Nat) (hn : 2 ≤ n) :
     (linspace a b n).length = n ∧
     (∀ i, i < n → at0 (linspace a b n) i = a + (i : Rat) * ((b - a) / ((n : Rat) - 1))) ∧
-    (0 < n → at0 (linspace a b n) 0 = a) ∧ (1 < n → at0 (linspace a b n) (n - 1) = b) := by
+    at0 (linspace a b n) 0 = a ∧ at0 (linspace a b n) (n - 1) = b ∧
+    (∀ i, i + 1 < n → at0 (linspace a b n) (i + 1) - at0 (linspace a b n) i = (b - a) / ((n : Rat) - 1)) := by
   have hlen : (linspace a b n).length = n := by simp [linspace]
   have hat : ∀ i, i < n → at0 (linspace a b n) i = a + (i : Rat) * ((b - a) / ((n : Rat) - 1)) := by
     intro i hi
@@ -105,16 +114,20 @@ theorem linspace_spec (a b : Rat) (n : Nat) :
         exact_mod_cast this.ne'
       rw [hn]; field_simp; ring
     · rfl
-  refine ⟨hlen, hat, ?_, ?_⟩
-  · intro h; rw [hat 0 h]; simp
-  · intro h
-    rw [hat (n - 1) (by omega)]
+  refine ⟨hlen, hat, ?_, ?_, ?_⟩
+  · rw [hat 0 (by omega)]; simp
+  · rw [hat (n - 1) (by omega)]
     have h1 : ((n - 1 : Nat) : Rat) = (n : Rat) - 1 := by
       rw [Nat.cast_sub (by omega)]; simp
     have h2 : (n : Rat) - 1 ≠ 0 := by
-      have : (1 : Rat) < (n : Rat) := by exact_mod_cast h
+      have : (2 : Rat) ≤ (n : Rat) := by exact_mod_cast hn
       linarith
     rw [h1]; field_simp; ring
+  · intro i hi
+    rw [hat (i + 1) hi, hat i (by omega)]
+    push_cast; ring
+
+example : linspace 0 1 5 = [0, 1 / 4, 1 / 2, 3 / 4, 1] := by decide +kernel
 
 /-- dividing finite non-negative values with a positive sum by that sum gives the same number of
 weights, each in [0, 1], that sum to one -/
@@ -130,6 +143,265 @@ theorem normalise_sums_to_one (y : List Rat) (h0 : ∀ v ∈ y, 0 ≤ v) (hs : 0
     exact List.single_le_sum h0 v hv
 
 example : normalise [1, 3, 0, 4] = [1 / 8, 3 / 8, 0, 1 / 2] := by norm_num [normalise]
+
+/-! ## kernel generators -/
+
+/-- THE GENERATOR BODY, for a density with values in any ordered field (ℝ for the eight generators built from
+exp / log / powers): if the density is non-negative on the axis and positive at one axis point, the result has
+one row per axis point, its first column is the axis, its second column is the density divided by its sum,
+and those weights lie in [0, 1] and sum to one.  The two hypotheses are what is NOT proved for the eight
+transcendental densities (they are properties of `exp` and of real powers). -/
+theorem kernelWith_spec {K : Type} [Field K] [LinearOrder K] [IsStrictOrderedRing K]
+    (axis : List Rat) (pdf : Rat → K) (h0 : ∀ x ∈ axis, 0 ≤ pdf x) (h1 : ∃ x ∈ axis, 0 < pdf x) :
+    (kernelWith axis pdf).length = axis.length ∧
+    (kernelWith axis pdf).map Prod.fst = axis ∧
+    (kernelWith axis pdf).map Prod.snd = axis.map (fun x => pdf x / (axis.map pdf).sum) ∧
+    ((kernelWith axis pdf).map Prod.snd).sum = 1 ∧
+    ∀ w ∈ (kernelWith axis pdf).map Prod.snd, 0 ≤ w ∧ w ≤ 1 := by
+  have hy0 : ∀ v ∈ axis.map pdf, 0 ≤ v := by
+    intro v hv
+    obtain ⟨x, hx, rfl⟩ := List.mem_map.mp hv
+    exact h0 x hx
+  have hs : 0 < (axis.map pdf).sum := by
+    obtain ⟨x, hx, hpos⟩ := h1
+    exact lt_of_lt_of_le hpos (List.single_le_sum hy0 _ (List.mem_map_of_mem hx))
+  have hsnd : (kernelWith axis pdf).map Prod.snd = axis.map (fun x => pdf x / (axis.map pdf).sum) := by
+    unfold kernelWith stackCols normaliseK
+    rw [List.map_snd_zip (by simp)]
+    simp [List.map_map, Function.comp_def]
+  refine ⟨by simp [kernelWith, stackCols, normaliseK], ?_, hsnd, ?_, ?_⟩
+  · unfold kernelWith stackCols normaliseK
+    rw [List.map_fst_zip (by simp)]
+  · rw [hsnd]
+    have : axis.map (fun x => pdf x / (axis.map pdf).sum) = (axis.map pdf).map (· / (axis.map pdf).sum) := by
+      simp [List.map_map, Function.comp_def]
+    rw [this, sum_map_div_field]
+    exact div_self hs.ne'
+  · intro w hw
+    rw [hsnd] at hw
+    obtain ⟨x, hx, rfl⟩ := List.mem_map.mp hw
+    refine ⟨div_nonneg (h0 x hx) hs.le, ?_⟩
+    rw [div_le_one hs]
+    exact List.single_le_sum hy0 _ (List.mem_map_of_mem hx)
+
+/-- every generator (`betaWith`, `exponentialWith`, `inversegammaWith`, `laplaceWith`, `loglaplaceWith`,
+`lognormalWith`, `normalWith`, `superGaussianWith` and `triangular` are `generatorWith` at their axis kind):
+`size` rows, the first column is the `linspace` axis of its kind, the weights lie in [0, 1] and sum to one —
+given a density that is non-negative on the axis and positive somewhere on it -/
+theorem generator_spec {K : Type} [Field K] [LinearOrder K] [IsStrictOrderedRing K]
+    (kind : AxisKind) (pdf : Rat → K) (size : Nat) (scale shift : Rat)
+    (h0 : ∀ x ∈ axisOf kind size scale shift, 0 ≤ pdf x) (h1 : ∃ x ∈ axisOf kind size scale shift, 0 < pdf x) :
+    (generatorWith kind pdf size scale shift).length = size ∧
+    (generatorWith kind pdf size scale shift).map Prod.fst = axisOf kind size scale shift ∧
+    ((generatorWith kind pdf size scale shift).map Prod.snd).sum = 1 ∧
+    ∀ w ∈ (generatorWith kind pdf size scale shift).map Prod.snd, 0 ≤ w ∧ w ≤ 1 := by
+  obtain ⟨hl, hf, _, hs, hw⟩ := kernelWith_spec (axisOf kind size scale shift) pdf h0 h1
+  refine ⟨?_, hf, hs, hw⟩
+  unfold generatorWith
+  rw [hl]
+  cases kind <;> simp [axisOf, axisUnit, axisPos, axisSym, linspace]
+
+/-- an everywhere positive density (what `exp` gives the exponential, Laplace, normal and super-Gaussian
+generators for a positive width) needs only a non-empty axis -/
+theorem generator_spec_of_pos {K : Type} [Field K] [LinearOrder K] [IsStrictOrderedRing K]
+    (kind : AxisKind) (pdf : Rat → K) (size : Nat) (scale shift : Rat) (hsize : 0 < size)
+    (hpos : ∀ x, 0 < pdf x) :
+    (generatorWith kind pdf size scale shift).length = size ∧
+    (generatorWith kind pdf size scale shift).map Prod.fst = axisOf kind size scale shift ∧
+    ((generatorWith kind pdf size scale shift).map Prod.snd).sum = 1 ∧
+    ∀ w ∈ (generatorWith kind pdf size scale shift).map Prod.snd, 0 ≤ w ∧ w ≤ 1 := by
+  apply generator_spec
+  · intro x _; exact (hpos x).le
+  · have hlen : (axisOf kind size scale shift).length = size := by
+      cases kind <;> simp [axisOf, axisUnit, axisPos, axisSym, linspace]
+    obtain ⟨x, hx⟩ := List.exists_mem_of_length_pos (by rw [hlen]; exact hsize)
+    exact ⟨x, hx, hpos x⟩
+
+example : ((generatorWith (K := Rat) .pos (fun x => 1 / (1 + x ^ 2)) 3 1 0).map Prod.snd).sum = 1 :=
+  (generator_spec_of_pos .pos (fun x : Rat => 1 / (1 + x ^ 2)) 3 1 0 (by norm_num)
+    (fun x => by show (0 : Rat) < 1 / (1 + x ^ 2); positivity)).2.2.1
+
+/-! ### the triangular generator, proved completely -/
+
+/-- the coded triangular density is non-negative for every `a < b` (wherever 0 lies) -/
+theorem triangularPdf_nonneg (a b x : Rat) (hab : a < b) : 0 ≤ triangularPdf a b x := by
+  unfold triangularPdf
+  split
+  · exact le_refl 0
+  · rename_i h
+    rw [not_or, not_lt, not_lt] at h
+    obtain ⟨h1, h2⟩ := h
+    split
+    · exact div_nonneg (by norm_num) (by linarith)
+    · split
+      · rename_i hx0 hxn
+        apply div_nonneg (by linarith)
+        exact (mul_pos_of_neg_of_neg (by linarith) (by linarith)).le
+      · rename_i hx0 hxn
+        have hxp : 0 < x := lt_of_le_of_ne (not_lt.mp hxn) (Ne.symm hx0)
+        apply div_nonneg (by linarith)
+        exact (mul_pos (by linarith) (by linarith)).le
+
+/-- … and positive exactly on the support minus the two foot points (`x = a < 0`, `x = b > 0`) -/
+theorem triangularPdf_pos_iff (a b x : Rat) (hab : a < b) :
+    0 < triangularPdf a b x ↔ a ≤ x ∧ x ≤ b ∧ ¬(x = a ∧ a < 0) ∧ ¬(x = b ∧ 0 < b) := by
+  unfold triangularPdf
+  split
+  · rename_i h
+    constructor
+    · intro h'; exact absurd h' (lt_irrefl 0)
+    · rintro ⟨h1, h2, _, _⟩
+      rcases h with h | h <;> linarith
+  · rename_i h
+    rw [not_or, not_lt, not_lt] at h
+    obtain ⟨h1, h2⟩ := h
+    split
+    · rename_i hx0
+      subst hx0
+      constructor
+      · intro _
+        exact ⟨h1, h2, fun ⟨e, l⟩ => by linarith, fun ⟨e, l⟩ => by linarith⟩
+      · intro _; exact div_pos (by norm_num) (by linarith)
+    · split
+      · rename_i hx0 hxn
+        have hden : 0 < a * (a - b) := mul_pos_of_neg_of_neg (by linarith) (by linarith)
+        constructor
+        · intro hp
+          refine ⟨h1, h2, ?_, fun ⟨e, l⟩ => by linarith⟩
+          rintro ⟨e, _⟩
+          subst e
+          simp at hp
+        · rintro ⟨_, _, hna, _⟩
+          have : a < x := lt_of_le_of_ne h1 (fun e => hna ⟨e.symm, by linarith⟩)
+          exact div_pos (by linarith) hden
+      · rename_i hx0 hxn
+        have hxp : 0 < x := lt_of_le_of_ne (not_lt.mp hxn) (Ne.symm hx0)
+        have hden : 0 < b * (b - a) := mul_pos (by linarith) (by linarith)
+        constructor
+        · intro hp
+          refine ⟨h1, h2, fun ⟨e, l⟩ => by linarith, ?_⟩
+          rintro ⟨e, _⟩
+          subst e
+          simp at hp
+        · rintro ⟨_, _, _, hnb⟩
+          have : x < b := lt_of_le_of_ne h2 (fun e => hnb ⟨e, by linarith⟩)
+          exact div_pos (by linarith) hden
+
+/-- `triangular(size, a, b, scale, shift)` for `a < b` and an axis point strictly inside `(a, b)`: `size` rows,
+first column the axis `linspace(−size/2·scale + shift, size/2·scale + shift, size)`, second column weights in
+[0, 1] that sum to one.  Nothing is assumed about the density: this generator is proved completely. -/
+theorem triangular_spec (size : Nat) (a b scale shift : Rat) (hab : a < b)
+    (hpt : ∃ x ∈ axisSym size scale shift, a < x ∧ x < b) :
+    (triangular size a b scale shift).length = size ∧
+    (triangular size a b scale shift).map Prod.fst = axisSym size scale shift ∧
+    ((triangular size a b scale shift).map Prod.snd).sum = 1 ∧
+    ∀ w ∈ (triangular size a b scale shift).map Prod.snd, 0 ≤ w ∧ w ≤ 1 := by
+  unfold triangular
+  apply generator_spec .sym (triangularPdf a b) size scale shift
+  · intro x _; exact triangularPdf_nonneg a b x hab
+  · obtain ⟨x, hx, h1, h2⟩ := hpt
+    refine ⟨x, hx, ?_⟩
+    rw [triangularPdf_pos_iff a b x hab]
+    exact ⟨h1.le, h2.le, fun ⟨e, _⟩ => by linarith, fun ⟨e, _⟩ => by linarith⟩
+
+example : (triangular 5 (-2) 2 1 0).map Prod.snd = [0, 3 / 14, 4 / 7, 3 / 14, 0] := by decide +kernel
+
+/-- an ascending `linspace` whose spacing is below `b − a` has a point strictly inside `(a, b)` as soon as the
+interval and the axis overlap -/
+theorem linspace_hits (lo hi a b : Rat) (n : Nat) (hn : 2 ≤ n) (hlh : lo < hi)
+    (hstep : (hi - lo) / ((n : Rat) - 1) < b - a) (h1 : lo < b) (h2 : a < hi) :
+    ∃ x ∈ linspace lo hi n, a < x ∧ x < b := by
+  obtain ⟨hlen, hat, h0, _, _⟩ := linspace_spec lo hi n hn
+  have hn1 : (0 : Rat) < (n : Rat) - 1 := by
+    have : (2 : Rat) ≤ (n : Rat) := by exact_mod_cast hn
+    linarith
+  have hpos : 0 < (hi - lo) / ((n : Rat) - 1) := div_pos (by linarith) hn1
+  have mem : ∀ i, i < n → at0 (linspace lo hi n) i ∈ linspace lo hi n := by
+    intro i hi'
+    rw [at0_of_lt _ _ (by rw [hlen]; exact hi')]
+    exact List.getElem_mem _
+  by_cases hc : a < lo
+  · have hm0 : lo ∈ linspace lo hi n := by
+      have := mem 0 (by omega)
+      rwa [h0] at this
+    exact ⟨lo, hm0, hc, h1⟩
+  · have hc' : lo ≤ a := not_lt.mp hc
+    generalize hh : (hi - lo) / ((n : Rat) - 1) = h at hpos hstep hat
+    have hnh : ((n : Rat) - 1) * h = hi - lo := by rw [← hh]; field_simp
+    have ht0 : 0 ≤ (a - lo) / h := div_nonneg (by linarith) hpos.le
+    have hth : (a - lo) / h * h = a - lo := div_mul_cancel₀ _ hpos.ne'
+    have htn : (a - lo) / h < (n : Rat) - 1 := by
+      rw [div_lt_iff₀ hpos]; linarith
+    have hfl : (⌊(a - lo) / h⌋₊ : Rat) ≤ (a - lo) / h := Nat.floor_le ht0
+    have hfu : (a - lo) / h < (⌊(a - lo) / h⌋₊ : Rat) + 1 := Nat.lt_floor_add_one _
+    have hi_lt : ⌊(a - lo) / h⌋₊ + 1 < n := by
+      have : ((⌊(a - lo) / h⌋₊ + 1 : Nat) : Rat) < (n : Rat) := by push_cast; linarith
+      exact_mod_cast this
+    refine ⟨at0 (linspace lo hi n) (⌊(a - lo) / h⌋₊ + 1), mem _ hi_lt, ?_, ?_⟩
+    · rw [hat _ hi_lt]
+      push_cast
+      have : (a - lo) / h * h < ((⌊(a - lo) / h⌋₊ : Rat) + 1) * h := mul_lt_mul_of_pos_right hfu hpos
+      linarith
+    · rw [hat _ hi_lt]
+      push_cast
+      have : ((⌊(a - lo) / h⌋₊ : Rat) + 1) * h ≤ ((a - lo) / h + 1) * h :=
+        mul_le_mul_of_nonneg_right (by linarith) hpos.le
+      linarith
+
+/-- the triangular generator from its parameters alone: `a < b`, at least two points, a positive scale, an axis
+spacing `size·scale/(size − 1)` below `b − a`, and a support that overlaps the axis -/
+theorem triangular_spec_of_params (size : Nat) (a b scale shift : Rat) (hab : a < b) (hn : 2 ≤ size)
+    (hsc : 0 < scale) (hstep : (size : Rat) * scale / ((size : Rat) - 1) < b - a)
+    (h1 : -(size : Rat) * (1 / 2) * scale + shift < b) (h2 : a < (size : Rat) * (1 / 2) * scale + shift) :
+    (triangular size a b scale shift).length = size ∧
+    (triangular size a b scale shift).map Prod.fst = axisSym size scale shift ∧
+    ((triangular size a b scale shift).map Prod.snd).sum = 1 ∧
+    ∀ w ∈ (triangular size a b scale shift).map Prod.snd, 0 ≤ w ∧ w ≤ 1 := by
+  apply triangular_spec size a b scale shift hab
+  unfold axisSym
+  have hs : (0 : Rat) < (size : Rat) := by
+    have : (2 : Rat) ≤ (size : Rat) := by exact_mod_cast hn
+    linarith
+  apply linspace_hits _ _ a b size hn
+  · nlinarith
+  · have e : (size : Rat) * (1 / 2) * scale + shift - (-(size : Rat) * (1 / 2) * scale + shift)
+        = (size : Rat) * scale := by ring
+    rw [e]; exact hstep
+  · exact h1
+  · exact h2
+
+/-- the repo's own table: `triangular(10, -5, 5)` -/
+example : ((triangular 10 (-5) 5 1 0).map Prod.snd).sum = 1 :=
+  (triangular_spec_of_params 10 (-5) 5 1 0 (by norm_num) (by norm_num) (by norm_num) (by norm_num)
+    (by norm_num) (by norm_num)).2.2.1
+
+/-- an odd size of at least three puts `shift` itself on the axis (the centre point): `a < shift < b` is
+enough, whatever the scale (zero and negative included) -/
+theorem triangular_spec_odd (k : Nat) (hk : 1 ≤ k) (a b scale shift : Rat) (h1 : a < shift) (h2 : shift < b) :
+    (triangular (2 * k + 1) a b scale shift).length = 2 * k + 1 ∧
+    (triangular (2 * k + 1) a b scale shift).map Prod.fst = axisSym (2 * k + 1) scale shift ∧
+    ((triangular (2 * k + 1) a b scale shift).map Prod.snd).sum = 1 ∧
+    ∀ w ∈ (triangular (2 * k + 1) a b scale shift).map Prod.snd, 0 ≤ w ∧ w ≤ 1 := by
+  apply triangular_spec _ a b scale shift (by linarith)
+  obtain ⟨hlen, hat, _, _, _⟩ := linspace_spec (-((2 * k + 1 : Nat) : Rat) * (1 / 2) * scale + shift)
+    (((2 * k + 1 : Nat) : Rat) * (1 / 2) * scale + shift) (2 * k + 1) (by omega)
+  have hmid : at0 (axisSym (2 * k + 1) scale shift) k = shift := by
+    unfold axisSym
+    rw [hat k (by omega)]
+    have hk0 : (k : Rat) ≠ 0 := by
+      have : 0 < k := hk
+      exact_mod_cast this.ne'
+    push_cast
+    field_simp
+    ring
+  have hmem : at0 (axisSym (2 * k + 1) scale shift) k ∈ axisSym (2 * k + 1) scale shift := by
+    rw [at0_of_lt _ _ (by unfold axisSym; rw [hlen]; omega)]
+    exact List.getElem_mem _
+  rw [hmid] at hmem
+  exact ⟨shift, hmem, h1, h2⟩
+
+example : ((triangular 3 (-1 / 3) (1 / 7) (-2) 0).map Prod.snd).sum = 1 :=
+  (triangular_spec_odd 1 (by norm_num) (-1 / 3) (1 / 7) (-2) 0 (by norm_num) (by norm_num)).2.2.1
 
 /-! ## deconvolution -/
 
